@@ -1,4 +1,5 @@
 import Bardolph.Model.Gen
+import Bardolph.Model.Sem
 import Bardolph.Driver.Vm
 /-!
 S-expression reader for ASTs sent by `harness/progs.py` (`to_sexp`) and the `gen.*` driver
@@ -297,9 +298,44 @@ def genCmd (args : List String) : String :=
       | some prog => "\x1f".intercalate (prog.map fun i => encode (encInstrWire i))
   | _ => "bad-args"
 
+def outcomeStr : Sem.Outcome → String
+  | .normal => "halted"
+  | .brk => "fault(break outside loop)"
+  | .ret => "fault(return outside a routine)"
+  | .fault w => "fault(" ++ w ++ ")"
+  | .uninterpreted w => "uninterpreted(" ++ w ++ ")"
+  | .outOfFuel => "running"
+
+/-- `sem.run <fuel> <nLights> <light>… <sexp>` → `<status> pc=0 ;events…` in the format of
+`vm.run`: the source-level semantics of the script on the population.  As `Machine.run` does,
+the output sink is flushed at the end (also after a fault). -/
+def semCmd (args : List String) : String :=
+  match args with
+  | fuel :: n :: rest =>
+    match fuel.toNat?, n.toNat? with
+    | some fuel, some n =>
+      let lights := (rest.take n).map fun a => parseLight (decode a)
+      if lights.any Option.isNone then "bad-light"
+      else
+        match rest.drop n with
+        | [sx] =>
+          match toProgram (decode sx) with
+          | none => "bad-ast"
+          | some b =>
+            let (o, s) := Sem.run fuel b (lights.filterMap id)
+            let s := match o with
+              | .normal | .fault _ | .brk | .ret => s.emit .flush
+              | _ => s
+            let evs := s.vm.trace.reverse.filterMap encEvent
+            outcomeStr o ++ " pc=0 ;" ++ ";".intercalate evs
+        | _ => "bad-args"
+    | _, _ => "bad-args"
+  | _ => "bad-args"
+
 def handle (cmd : String) (args : List String) : Option String :=
   match cmd with
   | "gen.prog" => some (genCmd args)
+  | "sem.run" => some (semCmd args)
   | _ => none
 
 end Bardolph.Driver.AstD
